@@ -374,6 +374,9 @@ def r6(facts):
                     i0 = strip(v.get('init')) if v.get('init') is not None else None
                     if i0 is not None and i0.get('k') == 'BinaryOperator' and i0['op'] == '/' and const_of(i0['r']) == 2 and short(strip(i0['l']).get('n', '')) == 'left':
                         ls = v
+        has_consumers = any(short(callee_name(x)) in ('generate32', 'generateAndMix32', 'SendStereoAudio') for b, ex, loc in fn.cfg.exprs() for x in calls_in(ex))
+        if not has_consumers:
+            continue        # sequencer compiled out: the function is a stub that returns 0
         if ls is None:
             out.append(Obl('C13.R6', name, 'frames left in the request (left / 2)', fn.loc, 'finding',
                            why='the per-period frame count is never compared with the frames left in the request: the last period of a call can produce more than was asked for'))
